@@ -81,7 +81,7 @@ def replay(path):
     return ref.replay_file("C01", path)
 
 
-def relational_part(V, prop, relkind, tr, sd):
+def relational_part(V, prop, relkind, tr, sd, workers=None, ncap=None):
     """arbitrary TLC-generated nets (all component kinds, up to 3 junction-pipe valves, library water / lgas, heat losses):
     a second description of the same system (relabelled + shuffled, or with orientation-free branches swapped) must give
     the same results for corresponding elements (Trace_PF.RelClauses)"""
@@ -89,7 +89,7 @@ def relational_part(V, prop, relkind, tr, sd):
     emit = dict(MaxJ="= 4", MaxE="= 4", MaxN="= 3", MaxPV="= 3", Kinds="<- KindsAll", NKinds="<- NKindsTherm", TogJ="= FALSE")
     r, nets = c04.gen_nets(emit, simulate="num=%d" % (50 if tr == "quick" else 800), depth=20, seed=4000 + sd, timeout=1200)
     nets = [n for n in nets if n["sup"] and len(n["net"]["E"]) >= 2]
-    cap = 600 if tr == "quick" else 20000
+    cap = ncap or (600 if tr == "quick" else 20000)
     if len(nets) > cap:
         nets = rnd.sample(nets, cap)
     if relkind == "iso":
@@ -107,9 +107,15 @@ def relational_part(V, prop, relkind, tr, sd):
         prm = row_params(n["net"])
         if not seq:
             prm["tn"] = 350.0       # hydraulics only: start temperatures equal to the feed temperature (see finding F30)
+        if relkind == "numba":
+            prm["tn"], prm["tn_step"] = 300.0, 9.0        # different junction temperatures (gas norm factors at both ends)
+            for q in n["net"]["N"]:
+                if q["tbl"] == "sink" and q["lab"] % 2 == 0:
+                    prm[("sink", q["lab"])] = {"mdot": 5e-9, "scaling": 1.0}     # a trickle (zero-flow thresholds of the kernels)
         jobs.append({"id": "r%d" % i, "an": n["net"], "fluid": "water" if (seq or i % 4 == 1) else "lgas", "params": prm,
-                     "opts": opts, "check": [prop + "R"], "relkind": relkind, "rseed": sd * 1000 + i})
-    cases = [c for c in core.pmap(pf.run_case_related, jobs, chunksize=12) if "skip" not in c]
+                     "opts": opts, "check": [prop + "R"], "relkind": relkind, "rseed": sd * 1000 + i,
+                     "ropts": {"use_numba": True} if relkind == "numba" else None})
+    cases = [c for c in core.pmap(pf.run_case_related, jobs, chunksize=12, workers=workers) if "skip" not in c]
     if relkind == "rev":
         # the known orientation dependence in hydraulics-only mode when a feeder's temperature differs from tfluid_k (F30)
         mini = {"J": [dict(lab=1, svc=True), dict(lab=2, svc=True)],
